@@ -1178,3 +1178,366 @@ pub fn check_histories(ctx: &mut Ctx) {
         }
     }
 }
+
+// ---------------------------------------------------------------------------
+// the rest of the provided impls: unsized payloads behind smart pointers,
+// every NonZero width, open ranges, PhantomData, concurrent collections,
+// wide tuples, arrays of other lengths, atomics
+// ---------------------------------------------------------------------------
+
+macro_rules! uni_slice_ptr {
+    ($p:ident) => {
+        impl<T: Uni> Uni for $p<[T]> {
+            fn vals() -> Vec<Self> { seqs::<T>().into_iter().map(|v| v.into()).collect() }
+
+            fn eqv(&self, o: &Self) -> bool { seq_eq(self, o) }
+        }
+        impl Uni for $p<str> {
+            fn vals() -> Vec<Self> {
+                <String as Uni>::vals().into_iter().map(|s| s.as_str().into()).collect()
+            }
+
+            fn eqv(&self, o: &Self) -> bool { **self == **o }
+        }
+        impl Uni for $p<std::path::Path> {
+            fn vals() -> Vec<Self> {
+                <std::path::PathBuf as Uni>::vals().into_iter().map(|s| s.as_path().into()).collect()
+            }
+
+            fn eqv(&self, o: &Self) -> bool { **self == **o }
+        }
+    };
+}
+uni_slice_ptr!(Box);
+uni_slice_ptr!(Rc);
+uni_slice_ptr!(Arc);
+
+impl<T: Uni> Uni for Cow<'static, [T]> {
+    fn vals() -> Vec<Self> {
+        let mut v: Vec<Self> = seqs::<T>().into_iter().map(Cow::Owned).collect();
+        // the same values borrowed
+        for s in seqs::<T>() {
+            v.push(Cow::Borrowed(Box::leak(s.into_boxed_slice())));
+        }
+        v
+    }
+
+    fn eqv(&self, o: &Self) -> bool { seq_eq(self, o) }
+}
+
+impl Uni for Cow<'static, std::path::Path> {
+    fn vals() -> Vec<Self> {
+        let mut v: Vec<Self> =
+            <std::path::PathBuf as Uni>::vals().into_iter().map(Cow::Owned).collect();
+        v.push(Cow::Borrowed(std::path::Path::new("a/b")));
+        v
+    }
+
+    fn eqv(&self, o: &Self) -> bool { **self == **o }
+}
+
+impl<T: 'static> Uni for std::marker::PhantomData<T> {
+    fn vals() -> Vec<Self> { vec![std::marker::PhantomData] }
+
+    fn eqv(&self, _: &Self) -> bool { true }
+}
+
+macro_rules! nonzero_uni {
+    ($($nz:ident : $t:ty),*) => {$(
+        impl Uni for std::num::$nz {
+            fn vals() -> Vec<Self> {
+                <$t as Uni>::vals().into_iter().filter_map(std::num::$nz::new).collect()
+            }
+
+            fn eqv(&self, o: &Self) -> bool { self == o }
+        }
+    )*};
+}
+nonzero_uni!(NonZeroU16: u16, NonZeroU32: u32, NonZeroU128: u128, NonZeroUsize: usize,
+             NonZeroI8: i8, NonZeroI16: i16, NonZeroI64: i64, NonZeroI128: i128, NonZeroIsize: isize);
+
+impl<T: Uni> Uni for std::ops::RangeFrom<T> {
+    fn vals() -> Vec<Self> { take::<T>(8).into_iter().map(|s| s..).collect() }
+
+    fn eqv(&self, o: &Self) -> bool { self.start.eqv(&o.start) }
+}
+
+impl<T: Uni> Uni for std::ops::RangeTo<T> {
+    fn vals() -> Vec<Self> { take::<T>(8).into_iter().map(|e| ..e).collect() }
+
+    fn eqv(&self, o: &Self) -> bool { self.end.eqv(&o.end) }
+}
+
+impl<T: Uni> Uni for std::ops::RangeToInclusive<T> {
+    fn vals() -> Vec<Self> { take::<T>(8).into_iter().map(|e| ..=e).collect() }
+
+    fn eqv(&self, o: &Self) -> bool { self.end.eqv(&o.end) }
+}
+
+impl Uni for std::ops::RangeFull {
+    fn vals() -> Vec<Self> { vec![..] }
+
+    fn eqv(&self, _: &Self) -> bool { true }
+}
+
+impl<K: Uni + std::hash::Hash + Eq, V: Uni> Uni for dashmap::DashMap<K, V> {
+    fn vals() -> Vec<Self> {
+        <HashMap<K, V> as Uni>::vals().into_iter().map(|m| m.into_iter().collect()).collect()
+    }
+
+    fn eqv(&self, o: &Self) -> bool {
+        self.len() == o.len()
+            && self.iter().all(|e| o.get(e.key()).is_some_and(|w| e.value().eqv(&*w)))
+    }
+
+    fn variants(&self) -> Vec<Self> {
+        // other shard counts, reverse insertion
+        let items: Vec<(K, V)> = self.iter().map(|e| (e.key().clone(), e.value().clone())).collect();
+        let mut out = Vec::new();
+        for shards in [2usize, 4, 64] {
+            let m = dashmap::DashMap::with_shard_amount(shards);
+            for (k, v) in items.iter().rev() {
+                m.insert(k.clone(), v.clone());
+            }
+            out.push(m);
+        }
+        out
+    }
+}
+
+impl<K: Uni + std::hash::Hash + Eq> Uni for dashmap::DashSet<K> {
+    fn vals() -> Vec<Self> {
+        <HashSet<K> as Uni>::vals().into_iter().map(|m| m.into_iter().collect()).collect()
+    }
+
+    fn eqv(&self, o: &Self) -> bool { self.len() == o.len() && self.iter().all(|e| o.contains(e.key())) }
+
+    fn variants(&self) -> Vec<Self> {
+        let items: Vec<K> = self.iter().map(|e| e.key().clone()).collect();
+        let mut out = Vec::new();
+        for cap in [0usize, 1, 64] {
+            let m = dashmap::DashSet::with_capacity(cap);
+            for k in items.iter().rev() {
+                m.insert(k.clone());
+            }
+            out.push(m);
+        }
+        out
+    }
+}
+
+impl<T: Uni + Ord> Uni for std::collections::BinaryHeap<T> {
+    fn vals() -> Vec<Self> { seqs::<T>().into_iter().map(|v| v.into_iter().collect()).collect() }
+
+    fn eqv(&self, o: &Self) -> bool {
+        seq_eq(&self.clone().into_sorted_vec(), &o.clone().into_sorted_vec())
+    }
+
+    fn variants(&self) -> Vec<Self> {
+        let items = self.clone().into_sorted_vec();
+        let mut rev = std::collections::BinaryHeap::new();
+        for x in items.iter().rev() {
+            rev.push(x.clone());
+        }
+        let mut fwd = std::collections::BinaryHeap::with_capacity(50);
+        for x in items.iter() {
+            fwd.push(x.clone());
+        }
+        vec![rev, fwd]
+    }
+}
+
+macro_rules! uni_array {
+    ($($n:expr),*) => {$(
+        impl<T: Uni> Uni for [T; $n] {
+            fn vals() -> Vec<Self> {
+                // every position varied on its own over the element domain, plus all-last
+                let e = take::<T>(4);
+                let base: [T; $n] = std::array::from_fn(|_| e[0].clone());
+                let mut v = vec![base.clone()];
+                for i in 0..$n {
+                    for x in e.iter().skip(1) {
+                        let mut a = base.clone();
+                        a[i] = x.clone();
+                        v.push(a);
+                    }
+                }
+                v.push(std::array::from_fn(|_| e[e.len() - 1].clone()));
+                v
+            }
+
+            fn eqv(&self, o: &Self) -> bool { seq_eq(self, o) }
+        }
+    )*};
+}
+uni_array!(1, 3, 4, 32, 33);
+
+macro_rules! uni_wide_tuple {
+    ($($n:tt : $t:ident),+) => {
+        impl<$($t: Uni),+> Uni for ($($t,)+) {
+            fn vals() -> Vec<Self> {
+                // every position varied on its own (a swapped or dropped
+                // position changes the decoded value), plus all-last
+                let base: Self = ($(take::<$t>(3)[0].clone(),)+);
+                let mut v = vec![base.clone()];
+                $(
+                    for x in take::<$t>(3).into_iter().skip(1) {
+                        let mut a = base.clone();
+                        a.$n = x;
+                        v.push(a);
+                    }
+                )+
+                v.push(($({ let t = take::<$t>(3); t[t.len() - 1].clone() },)+));
+                v
+            }
+
+            fn eqv(&self, o: &Self) -> bool { true $(&& self.$n.eqv(&o.$n))+ }
+        }
+    };
+}
+uni_wide_tuple!(0: A, 1: B, 2: C, 3: D, 4: E);
+uni_wide_tuple!(0: A, 1: B, 2: C, 3: D, 4: E, 5: F);
+uni_wide_tuple!(0: A, 1: B, 2: C, 3: D, 4: E, 5: F, 6: G);
+uni_wide_tuple!(0: A, 1: B, 2: C, 3: D, 4: E, 5: F, 6: G, 7: H);
+uni_wide_tuple!(0: A, 1: B, 2: C, 3: D, 4: E, 5: F, 6: G, 7: H, 8: I);
+uni_wide_tuple!(0: A, 1: B, 2: C, 3: D, 4: E, 5: F, 6: G, 7: H, 8: I, 9: J);
+uni_wide_tuple!(0: A, 1: B, 2: C, 3: D, 4: E, 5: F, 6: G, 7: H, 8: I, 9: J, 10: K);
+uni_wide_tuple!(0: A, 1: B, 2: C, 3: D, 4: E, 5: F, 6: G, 7: H, 8: I, 9: J, 10: K, 11: L);
+
+/// C13 for a type without Encode/Decode (or whose round trip is not the point)
+pub fn check_hash_only<T: Uni + StableHash>(ctx: &mut Ctx, name: &str) {
+    let vals = T::vals();
+    ctx.types += 1;
+    let streams: Vec<Vec<u8>> = vals.iter().map(|v| stream(v)).collect();
+    let mut idx: Vec<usize> = (0..vals.len()).collect();
+    idx.sort_by(|a, b| streams[*a].cmp(&streams[*b]));
+    for w in idx.windows(2) {
+        ctx.pairs += 1;
+        let (a, b) = (w[0], w[1]);
+        if streams[a] == streams[b] && !vals[a].eqv(&vals[b]) && !nan_pair(&vals[a], &vals[b]) {
+            ctx.fail(format!(
+                "{name}: unequal values {:?} and {:?} feed the same byte stream to the hasher",
+                vals[a], vals[b]
+            ));
+        }
+    }
+    for v in &vals {
+        ctx.values += 1;
+        let h = hash128(v, 7);
+        ctx.digest = ctx.digest.rotate_left(5) ^ h;
+        if hash128(&v.clone(), 7) != h || hash128(&v, 7) != h || hash128(&&v, 7) != h {
+            ctx.fail(format!("{name}: hash of {v:?} depends on the storage"));
+        }
+        for w in v.variants() {
+            ctx.values += 1;
+            ctx.variants += 1;
+            if !w.eqv(v) {
+                ctx.fail(format!("MACHINERY {name}: variant {w:?} of {v:?} is not equal to it"));
+                continue;
+            }
+            if hash128(&w, 7) != h {
+                ctx.fail(format!(
+                    "{name}: equal values hash differently depending on how they were built: {v:?}"
+                ));
+            }
+        }
+    }
+}
+
+/// C12 / C13 for the atomic integer types (not `Clone`, so outside `Uni`):
+/// an atomic encodes / hashes like the value it holds.
+pub fn check_atomics(ctx: &mut Ctx, ser: bool) {
+    use std::sync::atomic::*;
+    let p = Plugin::default();
+    macro_rules! one {
+        ($at:ident, $t:ty) => {{
+            ctx.types += 1;
+            for x in <$t as Uni>::vals() {
+                ctx.values += 1;
+                let a = $at::new(x);
+                if ser {
+                    let e = enc(&a, &p);
+                    if e != enc(&x, &p) {
+                        ctx.fail(format!("{}: {x:?} is not encoded like the plain value", stringify!($at)));
+                    }
+                    match dec::<$at>(&e, &p) {
+                        Ok((back, used)) => {
+                            if back.load(Ordering::Relaxed) != x || used != e.len() {
+                                ctx.fail(format!(
+                                    "{}: decode(encode({x:?})) = {back:?} ({used} of {} bytes)",
+                                    stringify!($at),
+                                    e.len()
+                                ));
+                            }
+                        }
+                        Err(er) => ctx.fail(format!("{}: decode(encode({x:?})) failed: {er}", stringify!($at))),
+                    }
+                } else if hash128(&a, 7) != hash128(&x, 7) {
+                    ctx.fail(format!("{}: {x:?} does not hash like the plain value", stringify!($at)));
+                }
+            }
+        }};
+    }
+    one!(AtomicBool, bool);
+    one!(AtomicI8, i8);
+    one!(AtomicI16, i16);
+    one!(AtomicI32, i32);
+    one!(AtomicI64, i64);
+    one!(AtomicIsize, isize);
+    one!(AtomicU8, u8);
+    one!(AtomicU16, u16);
+    one!(AtomicU32, u32);
+    one!(AtomicU64, u64);
+    one!(AtomicUsize, usize);
+}
+
+/// C13 for the string-like std types that only have a StableHash impl
+pub fn check_os_strings(ctx: &mut Ctx) {
+    use std::ffi::{CString, OsString};
+    let strs = <String as Uni>::vals();
+    let mut seen: Vec<(Vec<u8>, String)> = Vec::new();
+    ctx.types += 4;
+    for s in &strs {
+        ctx.values += 1;
+        let os = OsString::from(s.clone());
+        let h = hash128(&os, 7);
+        ctx.digest = ctx.digest.rotate_left(5) ^ h;
+        if hash128(os.as_os_str(), 7) != h {
+            ctx.fail(format!("OsString/OsStr {s:?} hash differently"));
+        }
+        let p = std::path::PathBuf::from(s.clone());
+        if hash128(&p, 7) != hash128(p.as_path(), 7) {
+            ctx.fail(format!("PathBuf/Path {s:?} hash differently"));
+        }
+        seen.push((stream(&os), s.clone()));
+        if !s.contains('\0') {
+            let c = CString::new(s.clone()).unwrap();
+            if hash128(&c, 7) != hash128(c.as_c_str(), 7) {
+                ctx.fail(format!("CString/CStr {s:?} hash differently"));
+            }
+            let mut with_cap = String::with_capacity(300);
+            with_cap.push_str(s);
+            if hash128(&CString::new(with_cap).unwrap(), 7) != hash128(&c, 7) {
+                ctx.fail(format!("CString {s:?}: hash depends on the capacity"));
+            }
+        }
+    }
+    seen.sort();
+    for w in seen.windows(2) {
+        ctx.pairs += 1;
+        if w[0].0 == w[1].0 && w[0].1 != w[1].1 {
+            ctx.fail(format!("OsString: {:?} and {:?} feed the same stream", w[0].1, w[1].1));
+        }
+    }
+    // std::mem::Discriminant: distinct per variant, equal for equal variants
+    let e: Vec<crate::vshape::Either<u8, u8>> =
+        vec![Either::L(1), Either::L(2), Either::R { x: 1, y: 2 }, Either::N];
+    let d: Vec<u128> = e.iter().map(|x| hash128(&std::mem::discriminant(x), 7)).collect();
+    ctx.values += 4;
+    for h in &d {
+        ctx.digest = ctx.digest.rotate_left(5) ^ h;
+    }
+    if d[0] != d[1] || d[0] == d[2] || d[0] == d[3] || d[2] == d[3] {
+        ctx.fail("Discriminant<T>: hash does not identify the variant".into());
+    }
+}
